@@ -12,6 +12,12 @@ CLAIMS = {
          "5 C02", "start offsets of Kani eps lemmas are concrete (listed per harness); all-offset padding carried by V-PAD/V-WRITE/V-DESER align contracts"),
  "C03": ("Kani lemmas on the real unsafe carvers: address, length, bounds, alignment, non-null of every borrowed part against the reference block list",
          "5 C03", "allocation-count half of the statement is not decided (no contract speaks about the allocator); element types and lengths enumerated/bounded"),
+ "C04": ("Verus V-TYPEINFO: every TypeHash/AlignHash implementation (built-in, incl. compiler-expanded macro impls) feeds exactly the published recipe, for all type parameters; constructor feeds pairwise distinct and injective (lemmas) + Kani closed-term digests over the near-miss universe and cross-type header rejection",
+         "5 C04", "xxh3 assumed collision-free on feeds; str/usize hash encodings assumed injective and prefix-free (std); the program quantifier is an enumerated universe (nm.rs); derive output is checked by Kani digests, not by Verus"),
+ "C05": ("Kani lemmas per enumerated derive sample: round trips in both modes (via C01/C02 lemmas), units, tag tables, and the substitution rule as TypeId equalities",
+         "5 C05", "the quantifier over all programs is not covered: enumerated definitions only (types.rs, nm.rs); the proc-macro itself is outside both verifiers"),
+ "C06": ("Kani lemmas: emitted bytes equal an independent reference encoder of format 1.1 (payload for every instantiation of C01, header incl. digests recomputed from the recipe) + Verus V-TYPEINFO (hash recipes) and V-DESER (readers accept exactly the grammar)",
+         "5 C06", "the reference encoder, the grammar and the recipes are fixed text in /verif and play the role of the corpus; no stored files; 64-bit little-endian target"),
  "C07": ("Verus V-PAD (padding formula, all offsets x all power-of-two units), V-WRITE (align loop, position tracking), V-DESER (reader align) + Kani byte-count and unit lemmas",
          "5 C07", "usize is 64 bits; streams shorter than the address space (precondition); units of enumerated types only in Kani, generic MaxSizeOf power-of-two is a trait-level contract"),
  "C10": ("Kani lemma over all 2^232 values of the 29 fixed header bytes against the decision table of the statement, both modes",
@@ -30,17 +36,15 @@ CLAIMS = {
          "5 C16", "item counts bounded (<=2)"),
  "C17": ("Kani lemmas: check_zero_copy panics before any write for a type with Copy=Zero and IS_ZERO_COPY=false (run-time layer only)",
          "5 C17", "compile-time rejection (a property of all programs) is not addressed"),
+ "C18": ("Kani lemmas on the real SchemaWriter: same bytes as plain serialization, rows in pre-order, within the stream, nesting without partial overlap, leaf rows tile the stream, recorded alignments hold",
+         "5 C18", "alloc::fmt::format stubbed (string contents are not part of the property); payload-level (ROOT row) only; CSV/debug rendering reduced to the in-range property of row offsets"),
  "C19": ("Kani per-operation lemmas from an arbitrary reachable state against the real std::io::Cursor<Vec<u8>> as oracle (seek complete; read/write bounded)",
          "5 C19", "content <= 20 bytes, read/write <= 5 bytes, position <= 40; histories of any length by induction over the state invariant"),
 }
 
 NOT_APPLICABLE = {
- "C04": "check not built yet (planned: V-TYPEINFO + Kani digest pairs)",
- "C05": "check not built yet (planned: derive samples through the C01/C02 lemmas + TypeId equalities)",
- "C06": "check not built yet (planned: reference-encoder equality lemmas are already run under C01)",
  "C08": "file-system and mmap calls are outside both verifiers (Kani has no model, Verus no dialect); quantifies over feature sets and thread schedules",
  "C09": "a statement about the type system over all client programs and about leak behaviour of file-bound loaders; no contract on a function within reach expresses it",
- "C18": "check not built yet (planned: Kani schema lemmas)",
 }
 
 def main():
@@ -69,7 +73,7 @@ def main():
                   "baseline_off_cmd": "cd /repo && cargo test --workspace --no-fail-fast --offline",
                   "source_commits": [], "add_only": True},
         "engines": [
-            {"name": "verus", "path": "contracts/ + extract/ + lib/verus_backend.py", "serves_properties": ["C01","C02","C07","C11","C12","C13","C14","C15"], "kind_free_text": "SMT-based deductive verifier on mechanically extracted real functions"},
+            {"name": "verus", "path": "contracts/ + extract/ + lib/verus_backend.py", "serves_properties": ["C01","C02","C04","C06","C07","C11","C12","C13","C14","C15"], "kind_free_text": "SMT-based deductive verifier on mechanically extracted real functions"},
             {"name": "kani", "path": "kani-harness/ + lib/kani_backend.py", "serves_properties": sorted(CLAIMS.keys()), "kind_free_text": "CBMC-based lemma harnesses over the unmodified crate (path dependency on /repo)"},
         ],
         "checks": checks,
